@@ -5,7 +5,7 @@ import ast
 import re
 import typing as T
 
-from ..core import Undecided, norm, short, walk_no_nested, kwarg, attr_chain
+from ..core import Undecided, norm, short, walk_no_nested, attr_chain
 from ..report import Rule, RuleCtx
 from .. import tables
 from ..tables import Atom, canon
@@ -21,7 +21,8 @@ CMDLINE = 'mesonbuild/cmdline.py'
 DOC = 'docs/markdown/Builtin-options.md'
 
 EXPLANATION = (
-    'Decides structural clauses of C07 on mesonbuild/options.py by symbolic replay of every path: '
+    'Decides structural clauses of C07 on mesonbuild/options.py from decision tables and effect shapes obtained by path enumeration with '
+    'reaching-definition substitution (no statement is executed, no value computed; atoms are decided only by world enumeration): '
     'R1 the top-level initialiser applies [project default_options, machine file, command line] in that order through '
     'set_user_option, the prefix candidates have the same order (last non-None wins) and the callers pass the sources '
     'in the positions the callee expects; R2 the write/pop events into the merged mapping of the subproject initialiser '
@@ -41,7 +42,8 @@ ASSUMPTIONS = [
     'positional parameter order of the two initialisers is (project default_options, command line, machine file) / '
     '(subproject, subproject() default_options, project default_options, command line, machine file): checked against the call sites',
 ]
-TECHNIQUE = 'symbolic replay of enumerated paths (versioned atoms) + decision tables over worlds + event-order sequences + who-may-write scan with origin evidence + folded tables vs documentation'
+TECHNIQUE = ('path enumeration with copy propagation (canonical, reaching-definition-versioned atoms) + world enumeration of decision tables against reference '
+             'denotations + symbolic comparison of effect shapes and their order + who-may-write scan with def-use origin evidence + constant tables folded and compared with the documentation')
 
 
 def A(text: str) -> Atom:
@@ -85,9 +87,33 @@ def loop_rows(sym: S.Sym, loop: S.Loop) -> T.List[S.SRow]:
     return sym.rows(body=loop.node.body, env0=loop.env, prepared=True)
 
 
+def is_logging(f: S.Fx) -> bool:
+    if f.kind != 'call':
+        return False
+    ch = attr_chain(f.node.func) or ''
+    return ch.startswith('mlog.') or ch.startswith('logging.') or ch == 'print'
+
+
 def visible(row: S.SRow) -> T.List[S.Fx]:
-    """effects that change state or call something (name bindings are already substituted)"""
-    return [f for f in row.fx if f.kind in ('call', 'store', 'augstore', 'del', 'opaque', 'expr', 'new')]
+    """effects that change state or call something (name bindings are already substituted; logging is no effect)"""
+    return [f for f in row.fx if f.kind in ('call', 'store', 'augstore', 'del', 'opaque', 'expr', 'new') and not is_logging(f)]
+
+
+def tokens(qn: str, row: tables.Row, classify: T.Callable[[S.Fx], T.Optional[str]]) -> T.Any:
+    """The effects of a row as reference tokens.  A row that leaves the loop/function is reported as such; an
+    effect the classifier does not know makes the comparison undecided (never a violation)."""
+    sr: S.SRow = row.srow  # type: ignore[attr-defined]
+    if row.outcome[0] == 'raise':
+        return ('raise', row.outcome[1])
+    if row.outcome[0] in ('return', 'break'):
+        return ('leaves', row.outcome)
+    out = []
+    for f in visible(sr):
+        k = classify(f)
+        if k is None:
+            raise Undecided(f'{qn}: effect outside the reference vocabulary: {f.text}')
+        out.append(k)
+    return tuple(out)
 
 
 def _row_node(row: tables.Row, fn: ast.AST) -> ast.AST:
@@ -128,16 +154,14 @@ def _prefix_split_summary(ctx: RuleCtx, mod: T.Any) -> None:
 
     def got(r: tables.Row) -> T.Any:
         sr: S.SRow = r.srow  # type: ignore[attr-defined]
-        if r.outcome[0] == 'raise':
-            return ('raise', r.outcome[1])
         lets = [f.node[0] for f in sr.fx if f.kind == 'let' and norm(f.node[1]) == 'VAL']
-        stores = [f.text for f in sr.fx if f.kind == 'store']
-        if lets and not stores:
+        t = tokens(qn, r, lambda f: 'rest' if f.kind == 'store' and f.text == f'{rest}[KEY] := VAL' else None)
+        if t and t[0] in ('raise', 'leaves'):
+            return t
+        if lets:
             pvar.update(lets)
-            return ('take',)
-        if stores == [f'{rest}[KEY] := VAL'] and not lets:
-            return ('rest',)
-        return ('other', tuple(lets), tuple(stores))
+            return ('take',) + t
+        return t
 
     def ref(v: T.Dict[str, bool]) -> T.Any:
         if v['prefix']:
@@ -276,7 +300,7 @@ def r1(ctx: RuleCtx) -> None:
     for kind, x in items:
         if kind == 'block':
             raise Undecided(f'{qn}: compound statement at top level: {short(x[0])}')
-        if kind == 'fx' and x.kind not in ('let',):
+        if kind == 'fx' and x.kind not in ('let',) and not is_logging(x):
             raise Undecided(f'{qn}: unexpected top-level effect {x.text}')
     loops = [x for k, x in items if k == 'loop']
     cross, forbuild, subp = A('self.is_cross'), A('KEY.is_for_build()'), A('KEY.subproject')
@@ -296,15 +320,8 @@ def r1(ctx: RuleCtx) -> None:
                 return ('park',) if park else ()
             return ('apply',)
 
-        def got(r: tables.Row) -> T.Any:
-            sr: S.SRow = r.srow  # type: ignore[attr-defined]
-            if r.outcome[0] in ('raise', 'return', 'break'):
-                return ('leaves', r.outcome)
-            out = []
-            for f in visible(sr):
-                k = _apply_kind(f)
-                out.append(k if k is not None else 'other:' + f.text)
-            return tuple(out)
+        def got(r: tables.Row, lq: str = f'{qn} loop over {label}') -> T.Any:
+            return tokens(lq, r, _apply_kind)
         S.compare(ctx, mod, f'{qn} loop over {label}', fn, tab, sem, lambda w: {k: w[a] for a, k in sem.items()}, ref, got, list(sem),
                   what='reference (build-machine keys ignored natively; subproject-qualified keys ' + ('parked' if park else 'left for the subproject') +
                        '; everything else through set_user_option(key, value, True))')
@@ -470,27 +487,22 @@ def r2(ctx: RuleCtx) -> None:
             continue
         if any(s not in SUB_SRC for s in srcs):
             raise Undecided(f'{lq}: unknown source')
-        kinds = {f.kind for r in rows for f in visible(r)}
         pops = any(f.kind == 'call' and is_call(f.node, 'pop') for r in rows for f in visible(r))
         raises = any(r.outcome[0] == 'raise' for r in rows)
 
-        def got(r: tables.Row) -> T.Any:
-            sr: S.SRow = r.srow  # type: ignore[attr-defined]
-            if r.outcome[0] == 'raise':
-                return ('raise', r.outcome[1])
-            if r.outcome[0] in ('return', 'break'):
-                return ('leaves', r.outcome)
-            out = []
-            for f in visible(sr):
-                if f.kind == 'store' and f.text == f'{opts}[{rekey}] := VAL':
-                    out.append('write-rekeyed')
-                elif f.kind == 'store' and f.text == f'{opts}[KEY] := VAL':
-                    out.append('write')
-                elif f.kind == 'call' and f.text == f'{opts}.pop({rekey}, None)':
-                    out.append('pop-rekeyed')
-                else:
-                    out.append('other:' + f.text)
-            return tuple(out)
+        def classify(f: S.Fx) -> T.Optional[str]:
+            if f.kind == 'store' and isinstance(f.node[0], ast.Subscript) and norm(f.node[0].value) == opts:
+                if f.text == f'{opts}[{rekey}] := VAL':
+                    return 'write-rekeyed'
+                if f.text == f'{opts}[KEY] := VAL':
+                    return 'write'
+                return 'write?' + f.text
+            if f.kind == 'call' and is_call(f.node, 'pop') and norm(f.node.func.value) == opts:
+                return 'pop-rekeyed' if f.text == f'{opts}.pop({rekey}, None)' else 'pop?' + f.text
+            return None
+
+        def got(r: tables.Row, lq: str = lq) -> T.Any:
+            return tokens(lq, r, classify)
         if pops:
             mode = 'pop'
             sem = {is_none: 'none', projopt: 'top_project_option'}
@@ -518,8 +530,7 @@ def r2(ctx: RuleCtx) -> None:
             desc = 'reference (only keys qualified with this subproject are written)'
         S.compare(ctx, mod, lq, fn, tab, sem, lambda w, sem=sem: {k: w[a] for a, k in sem.items()}, ref, got, list(sem), what=desc)
         events.extend((SUB_SRC[s], mode) for s in srcs)
-        del kinds
-    ctx.floor('merge loops of the subproject initialiser', len(loops), 6)
+    ctx.floor('merge loops of the subproject initialiser', len(loops), 3)
     ctx.require(merged, f'{qn}: the merged mapping is applied by a final loop', mod, qn, 'final merge loop', 'no loop iterates over the merged mapping', fn)
     g, w = _norm_events(events), _norm_events(want)
     ctx.require(g == w, f'{qn}: {len(events)} write/remove events in the documented order', mod, qn, 'order of the write events into the merged mapping',
@@ -527,6 +538,7 @@ def r2(ctx: RuleCtx) -> None:
     tail = [x for k, x in items if k == 'fx' and x.kind == 'call']
     ctx.require(any(f.text == 'self.subprojects.add(ARG1)' for f in tail), f'{qn}: the subproject is recorded as processed', mod, qn,
                 'self.subprojects.add(subproject)', 'the subproject is not added to self.subprojects after the merge', fn)
+    _call_sites(ctx, 'initialize_from_subproject_call', ['subproject', 'spcall', 'project', 'cmdline', 'machine'], 2)
 
 
 def _merge_loop(ctx: RuleCtx, mod: T.Any, lq: str, fn: ast.AST, tab: tables.Table, opts: str) -> None:
@@ -539,31 +551,32 @@ def _merge_loop(ctx: RuleCtx, mod: T.Any, lq: str, fn: ast.AST, tab: tables.Tabl
     def ref(v: T.Dict[str, bool]) -> T.Any:
         if not v['own']:
             if v['processed'] and not v['same_value']:
-                return ('warn',)
+                return ()          # only a warning: neither parked nor applied
             return ('park',)
         return ('forget-pending',) + (() if v['augmented'] else ('apply',))
 
+    FORGET = ('self.pending_subproject_options.pop(KEY, None)', 'self.pending_options.pop(KEY, None)')
+
+    def classify(f: S.Fx) -> T.Optional[str]:
+        k = _apply_kind(f)
+        if k is not None:
+            return k
+        if f.kind == 'call' and f.text in FORGET:
+            return 'forget:' + f.text
+        return None
+
     def got(r: tables.Row) -> T.Any:
-        sr: S.SRow = r.srow  # type: ignore[attr-defined]
-        if r.outcome[0] in ('raise', 'return', 'break'):
-            return ('leaves', r.outcome)
-        out: T.List[str] = []
-        pops = set()
-        for f in visible(sr):
-            k = _apply_kind(f)
-            if k is not None:
-                out.append(k)
-            elif f.kind == 'call' and f.text in ('self.pending_subproject_options.pop(KEY, None)', 'self.pending_options.pop(KEY, None)'):
-                if out:
-                    out.append('late:' + f.text)
-                pops.add(f.text)
-            elif f.kind == 'call' and is_call(f.node, 'warning'):
-                out.append('warn')
-            else:
-                out.append('other:' + f.text)
-        if pops:
-            out.insert(0, 'forget-pending' if len(pops) == 2 else 'forget-partly')
-        return tuple(out)
+        t = tokens(lq, r, classify)
+        if t and t[0] in ('raise', 'leaves'):
+            return t
+        forget = {x for x in t if x.startswith('forget:')}
+        rest = [x for x in t if not x.startswith('forget:')]
+        # the two removals are independent of each other but must precede the application
+        if forget and any(not x.startswith('forget:') for x in t[:len(forget)]):
+            rest.insert(0, 'forget-late')
+        if forget:
+            rest.insert(0, 'forget-pending' if len(forget) == 2 else 'forget-partly')
+        return tuple(rest)
     S.compare(ctx, mod, lq, fn, tab, sem, lambda w: {k: w[a] for a, k in sem.items()}, ref, got, list(sem),
               what='reference (foreign keys are parked or warned about; own keys leave the pending maps and are applied through '
                    'set_user_option(key, value, True) unless an augment already exists)')
@@ -590,7 +603,7 @@ def r3(ctx: RuleCtx) -> None:
         return ('return', P(f'({O}, {O}.value)'))
     S.compare(ctx, mod, qn, fn, tab, sem, lambda w: {k: w[a] for a, k in sem.items()}, ref, lambda r: r.outcome, list(sem),
               what='reference lookup (augment of the canonical key, else the value of the yielding parent, else the own value)')
-    ctx.floor('lookup rows', len(rows), 3)
+    ctx.floor('lookup rows', len(rows), 2)
     # the value getter is this function's second result
     qn2 = 'OptionStore.get_value_for'
     fn2 = mod.func(qn2)
@@ -791,7 +804,7 @@ def _guard_rows(ctx: RuleCtx, mod: T.Any, qn: str, rows: T.List[S.SRow], fired: 
             if not wrong:
                 have = [names[a] for a in guard if a in r.conds]
                 ctx.violation(mod, qn, f'{what}: missing', f'{what} does not happen on a path where {", ".join(have) or "no guard was tested"} held and no guard failed: '
-                              f'an additional condition suppresses it, or it was removed', path=repr(r))
+                              f'an additional condition suppresses it, or it was removed', mod.func(qn), path=repr(r))
     return on, off
 
 
@@ -827,26 +840,44 @@ def r6(ctx: RuleCtx) -> None:
     ctx.floor('paths without it', off, 2)
     ctx.ok(f'{so.qn}: debug/optimization are derived exactly when the value changed to a non-custom buildtype ({on} paths with, {off} without)')
     dep = f'self.DEFAULT_DEPENDENTS[{NV}]'
-    want = {P("ARG1.evolve(name='debug')"): P(f'{dep}[{bool_col[0]}]'), P("ARG1.evolve(name='optimization')"): P(f'{dep}[{str_col[0]}]')}
+    col = {'debug': bool_col[0], 'optimization': str_col[0]}
+    keyform = {P(f"ARG1.evolve(name='{k}')"): k for k in col}
+    problem = None
+    npaths = 0
     for r in so.tail:
         ex = expansions(r)
         if not ex:
             continue
-        got: T.Dict[str, str] = {}
-        bad = None
+        npaths += 1
+        seen: T.Set[str] = set()
         for f in ex:
             a = call_args(f.node, ['key', 'new_value', 'first_invocation'])
-            if set(a) != {'key', 'new_value', 'first_invocation'} or norm(a['first_invocation']) != 'ARG3':
-                bad = f
+            if set(a) != {'key', 'new_value', 'first_invocation'}:
+                raise Undecided(f'{so.qn}: recursive call {f.text}')
+            k, v = a['key'], a['new_value']
+            if norm(k) not in keyform:
+                if is_call(k, 'OptionKey') and len(k.args) == 1 and not k.keywords:  # type: ignore[attr-defined]
+                    problem = (f, f'{f.text}: the dependant is set under the global key {norm(k)}; reference: key.evolve(name=...), the same subproject and machine as the buildtype being set')
+                    break
+                raise Undecided(f'{so.qn}: dependant key of unknown form: {norm(k)}')
+            which = keyform[norm(k)]
+            seen.add(which)
+            if not (isinstance(v, ast.Subscript) and norm(v.value) == dep and isinstance(v.slice, ast.Constant) and v.slice.value in (0, 1)):
+                raise Undecided(f'{so.qn}: dependant value of unknown form: {norm(v)}')
+            if v.slice.value != col[which]:
+                problem = (f, f'{f.text}: {which} receives column {v.slice.value} of DEFAULT_DEPENDENTS; column {col[which]} holds the {which} values')
                 break
-            got[norm(a['key'])] = norm(a['new_value'])
-        if bad is not None or got != want:
-            f0 = bad or ex[0]
-            ctx.violation(mod, so.qn, f0.src, f'the expansion sets {got or f0.text}; reference: {want} with first_invocation passed on '
-                          f'(column {bool_col[0]} of DEFAULT_DEPENDENTS is debug, column {str_col[0]} optimization)', f0.src)
+            if norm(a['first_invocation']) != 'ARG3':
+                problem = (f, f'{f.text}: first_invocation is not passed on')
+                break
+        if problem is None and seen != set(col):
+            problem = (ex[0], f'the expansion sets only {sorted(seen)}; reference: debug and optimization')
+        if problem is not None:
             break
+    if problem is not None:
+        ctx.violation(mod, so.qn, problem[0].src, problem[1], problem[0].src)
     else:
-        ctx.ok(f'{so.qn}: expansion sets debug := table[{bool_col[0]}] and optimization := table[{str_col[0]}] of the same key, first_invocation passed on')
+        ctx.ok(f'{so.qn}: expansion sets debug := table[{bool_col[0]}] and optimization := table[{str_col[0]}] under key.evolve(name=...), first_invocation passed on ({npaths} paths)')
     _changed_semantics(ctx, so)
     # command line: buildtype first, so that explicit debug/optimization are applied after its expansion
     cm = ctx.repo.module(CMDLINE)
@@ -883,33 +914,64 @@ def _changed_semantics(ctx: RuleCtx, so: SetOption) -> None:
     """the accumulator returned by set_option is updated once with `old != validated new`, old being read before the write"""
     mod = so.mod
     inopt = A('ARG1 in self.options')
+    known_old = {True: f'{so.obj}.value', False: f'self.augments.get(ARG1, {so.obj}.value)'}
     n = 0
     for r in so.tail:
+        if r.outcome[0] == 'raise' and not any(f.kind == 'opaque' for f in r.fx):
+            continue
         ups = [f for f in r.fx if f.kind == 'opaque']
         first_test = next((i for i, t in enumerate(r.trace) if t[0] == 'cond' and t[1] == A(so.changed)), None)
         if first_test is not None and any(t[0] == 'fx' and t[1].kind == 'opaque' for t in r.trace[first_test:]):
             raise Undecided(f'{so.qn}: {so.changed} is updated after it has been tested')
-        good = False
-        why = f'updates of {so.changed}: {[f.text for f in ups]}'
-        if len(ups) == 1 and isinstance(ups[0].node[1], ast.BinOp) and isinstance(ups[0].node[1].op, ast.BitOr) and norm(ups[0].node[1].left) == so.changed:
-            c = ups[0].node[1].right
-            if isinstance(c, ast.Compare) and len(c.ops) == 1 and isinstance(c.ops[0], ast.NotEq):
-                sides = [c.left, c.comparators[0]]
-                new = [x for x in sides if norm(x) == so.NV]
-                old = [x for x in sides if norm(x) != so.NV]
-                if len(new) == 1 and len(old) == 1 and inopt in r.conds:
-                    want_old = f'{so.obj}.value' if r.conds[inopt] else f'self.augments.get(ARG1, {so.obj}.value)'
-                    # the old value must have been bound before the write
-                    let_i = next((i for i, t in enumerate(r.trace) if t[0] == 'fx' and t[1].kind == 'let' and t[1].node[1] is old[0]), None)
-                    wr_i = next((i for i, t in enumerate(r.trace) if t[0] == 'fx' and ((t[1].kind == 'call' and is_call(t[1].node, 'set_value')) or
-                                                                                    (t[1].kind == 'store' and norm(t[1].node[0]).startswith('self.augments[')))), None)
-                    good = norm(old[0]) == want_old and let_i is not None and wr_i is not None and let_i < wr_i
-                    why = f'old value is {norm(old[0])} (bound {"before" if let_i is not None and wr_i is not None and let_i < wr_i else "not before"} the write); expected {want_old} read before the write'
+        if len(ups) != 1:
+            raise Undecided(f'{so.qn}: {len(ups)} updates of {so.changed} after the validation on a path: {[f.text for f in ups]}')
+        u = ups[0].node[1]
+        if isinstance(u, ast.BinOp) and isinstance(u.op, ast.BitOr):
+            parts = [u.left, u.right]
+        elif isinstance(u, ast.BoolOp) and isinstance(u.op, ast.Or) and len(u.values) == 2:
+            parts = list(u.values)
+        else:
+            raise Undecided(f'{so.qn}: unknown form of the change-flag update: {ups[0].text}')
+        rest_ = [x for x in parts if norm(x) != so.changed]
+        c = rest_[0] if len(rest_) == 1 else None
+        if not (isinstance(c, ast.Compare) and len(c.ops) == 1 and isinstance(c.ops[0], ast.NotEq)) or inopt not in r.conds:
+            raise Undecided(f'{so.qn}: unknown form of the change-flag update: {ups[0].text}')
+        sides = [c.left, c.comparators[0]]
+        new = [x for x in sides if norm(x) == so.NV]
+        old = [x for x in sides if norm(x) != so.NV]
         n += 1
-        if not good:
-            ctx.violation(mod, so.qn, ups[0].src if ups else f'{so.changed} update', f'the change flag is not `old value != validated new value`: {why}', ups[0].src if ups else so.fn, path=repr(r))
+        why = None
+        if len(new) != 1:
+            if any('RAW' in names_of(x) and not _contains_call(x, 'validate_value') for x in sides):
+                why = f'it compares {norm(c)}: the unvalidated input instead of the validated value {so.NV}'
+            else:
+                raise Undecided(f'{so.qn}: the change-flag update {ups[0].text} does not mention the validated value')
+        else:
+            o = norm(old[0])
+            if o not in known_old.values():
+                raise Undecided(f'{so.qn}: previous value of unknown form: {o}')
+            let_i = next((i for i, t in enumerate(r.trace) if t[0] == 'fx' and t[1].kind == 'let' and t[1].node[1] is old[0]), None)
+            wr_i = next((i for i, t in enumerate(r.trace) if t[0] == 'fx' and ((t[1].kind == 'call' and is_call(t[1].node, 'set_value')) or
+                                                                            (t[1].kind == 'store' and norm(t[1].node[0]).startswith('self.augments[')))), None)
+            if o != known_old[r.conds[inopt]]:
+                why = f'the previous value is read from {o}, but on this path the value lives in {known_old[r.conds[inopt]]}'
+            elif let_i is None or wr_i is None:
+                raise Undecided(f'{so.qn}: cannot order the read of the previous value and the write')
+            elif let_i > wr_i:
+                why = f'the previous value {o} is read after the new value has been written: the flag is always False'
+        if why:
+            ctx.violation(mod, so.qn, ups[0].src, f'the change flag is not `previous value != validated new value`: {why}', ups[0].src, path=repr(r))
             return
+    ctx.floor('paths updating the change flag', n, 2)
     ctx.ok(f'{so.qn}: the change flag is `previous value != validated value`, the previous value being read before the write ({n} paths)')
+
+
+def names_of(e: ast.AST) -> T.Set[str]:
+    return {n.id for n in ast.walk(e) if isinstance(n, ast.Name)}
+
+
+def _contains_call(e: ast.AST, name: str) -> bool:
+    return any(is_call(c, name) for c in ast.walk(e))
 
 
 # ---------------------------------------------------------------------------
@@ -917,11 +979,15 @@ def _changed_semantics(ctx: RuleCtx, so: SetOption) -> None:
 TABLE = 'BUILTIN_DIR_NOPREFIX_OPTIONS'
 
 
+SET_ARGS = ('self.options[KEY].default', 'self.options[KEY].value', 'VAL[ARG1]', 'VAL[ARG2]', 'VAL[self.sanitize_prefix(ARG1)]')
+
+
 def _set_value_calls(r: tables.Row) -> T.Any:
-    sr: S.SRow = r.srow  # type: ignore[attr-defined]
-    if r.outcome[0] in ('raise', 'return', 'break'):
-        return ('leaves', r.outcome)
-    return tuple(f.text if f.kind == 'call' else 'other:' + f.text for f in visible(sr))
+    def classify(f: S.Fx) -> T.Optional[str]:
+        if f.kind == 'call' and is_call(f.node, 'set_value') and norm(f.node.func.value) == 'self.options[KEY]' and len(f.node.args) == 1 and norm(f.node.args[0]) in SET_ARGS:
+            return f.text
+        return None
+    return tokens('prefix-dependent defaults', r, classify)
 
 
 def r7(ctx: RuleCtx) -> None:
@@ -932,7 +998,7 @@ def r7(ctx: RuleCtx) -> None:
     fn = mod.func(qn)
     sym = S.Sym(fn)
     items, _ = S.straight_line(sym, fn, qn)
-    kinds = [(k, x) for k, x in items if not (k == 'fx' and x.kind == 'let')]
+    kinds = [(k, x) for k, x in items if not (k == 'fx' and (x.kind == 'let' or is_logging(x)))]
     PFX = P('self.sanitize_prefix(ARG1)')
     O = 'self.options[KEY]'
     shape = [k for k, _ in kinds]
@@ -953,7 +1019,7 @@ def r7(ctx: RuleCtx) -> None:
     fn = mod.func(qn)
     sym = S.Sym(fn)
     items, _ = S.straight_line(sym, fn, qn)
-    kinds = [(k, x) for k, x in items if not (k == 'fx' and x.kind == 'let')]
+    kinds = [(k, x) for k, x in items if not (k == 'fx' and (x.kind == 'let' or is_logging(x)))]
     if [k for k, _ in kinds] != ['loop']:
         raise Undecided(f'{qn}: expected a single loop')
     loop = kinds[0][1]
@@ -1021,13 +1087,21 @@ def r7(ctx: RuleCtx) -> None:
     on, off = _guard_rows(ctx, mod, so.qn, so.tail, resets, {isp: True, first: True, changed: True}, 'the reset of prefix-dependent options', names)
     ctx.floor('paths resetting prefix-dependent options', on, 1)
     ctx.ok(f'{so.qn}: reset_prefixed_options runs exactly for a changed prefix on the first invocation ({on} paths with, {off} without)')
+    olds = (f'{so.obj}.value', f'self.augments.get(ARG1, {so.obj}.value)')
     for r in so.tail:
         for f in resets(r):
             a = call_args(f.node, ['old_prefix', 'new_prefix'])
-            ok = set(a) == {'old_prefix', 'new_prefix'} and norm(a['new_prefix']) == so.NV and norm(a['old_prefix']) in (f'{so.obj}.value', f'self.augments.get(ARG1, {so.obj}.value)')
-            if not ok:
-                ctx.violation(mod, so.qn, f.src, f'{f.text}: reference is reset_prefixed_options(previous prefix, validated new prefix)', f.src)
+            if set(a) != {'old_prefix', 'new_prefix'}:
+                raise Undecided(f'{so.qn}: {f.text}')
+            o, nw = norm(a['old_prefix']), norm(a['new_prefix'])
+            if (o, nw) == (so.NV, nw) and nw in olds:
+                ctx.violation(mod, so.qn, f.src, f'{f.text}: old and new prefix are swapped; reference is reset_prefixed_options(previous prefix, validated new prefix)', f.src)
                 return
+            if nw != so.NV or o not in olds:
+                if 'RAW' in names_of(a['new_prefix']) and not _contains_call(a['new_prefix'], 'validate_value'):
+                    ctx.violation(mod, so.qn, f.src, f'{f.text}: the new prefix passed on is the unvalidated input', f.src)
+                    return
+                raise Undecided(f'{so.qn}: arguments of unknown form in {f.text}')
     ctx.ok(f'{so.qn}: reset_prefixed_options(previous value, validated new value)')
 
 
